@@ -1,3 +1,159 @@
-// unit labels: harnesses for sdk/src/jumbf/labels.rs (included by the cfg(kani) hook at the end of that file)
+// unit labels: sdk/src/jumbf/labels.rs (included by the cfg(kani) hook at the end of that file)
+// C34: URI builders and parsers are inverse on labels without '/' and '='; ManifestParts Display and
+// manifest_label_to_parts are inverse on the shapes the SDK generates.
 #[allow(unused_imports)]
 use super::*;
+
+fn strings_over(alphabet: &[char], max_len: usize) -> Vec<String> {
+    let mut out = vec![String::new()];
+    let mut frontier = vec![String::new()];
+    for _ in 0..max_len {
+        let mut next = Vec::new();
+        for s in &frontier {
+            for c in alphabet {
+                let mut t = s.clone();
+                t.push(*c);
+                next.push(t);
+            }
+        }
+        out.extend(next.iter().cloned());
+        frontier = next;
+    }
+    out
+}
+
+#[test]
+fn c34_uri_round_trips() {
+    let thorough = std::env::var("VERIF_B_TIER").map(|t| t == "thorough").unwrap_or(false);
+    let alphabet = ['a', ':', '.', '_', '1', ' ', '-'];
+    let labels: Vec<String> = strings_over(&alphabet, if thorough { 4 } else { 3 }).into_iter().filter(|s| !s.is_empty()).collect();
+    let mut evals = 0usize;
+    let mut nontrivial = 0usize;
+    let mut counts: std::collections::BTreeMap<String, usize> = std::collections::BTreeMap::new();
+    let mut bad = |k: &str, input: String, counts: &mut std::collections::BTreeMap<String, usize>| {
+        let c = counts.entry(k.to_string()).or_insert(0);
+        *c += 1;
+        if *c <= 3 {
+            println!("VERIF-B-VIOLATION key={k} input={input}");
+        }
+    };
+    let generated = ["urn:c2pa:6f1b7a2e-0c1d-4b7e-9a3f-5d2c8e4b1a90", "urn:c2pa:6f1b7a2e-0c1d-4b7e-9a3f-5d2c8e4b1a90:acme:2_1", "acme:urn:uuid:6f1b7a2e-0c1d-4b7e-9a3f-5d2c8e4b1a90", "urn:uuid:6f1b7a2e-0c1d-4b7e-9a3f-5d2c8e4b1a90"];
+    let assertion_labels = ["c2pa.actions", "c2pa.hash.data", "c2pa.ingredient.v3__2", "stds.schema-org.CreativeWork__12", "a"];
+    let ms: Vec<String> = labels.iter().cloned().chain(generated.iter().map(|s| s.to_string())).collect();
+    let asl: Vec<String> = if thorough { labels.iter().cloned().chain(assertion_labels.iter().map(|s| s.to_string())).collect() } else { assertion_labels.iter().map(|s| s.to_string()).chain(labels.iter().take(60).cloned()).collect() };
+    for m in &ms {
+        evals += 1;
+        let u = to_manifest_uri(m);
+        if manifest_label_from_uri(&u).as_deref() != Some(m.as_str()) {
+            bad("labels.manifest_uri_round_trip", format!("{m:?}"), &mut counts);
+        }
+        let s = to_signature_uri(m);
+        if manifest_label_from_uri(&s).as_deref() != Some(m.as_str()) || box_name_from_uri(&s).as_deref() != Some(SIGNATURE) {
+            bad("labels.signature_uri_round_trip", format!("{m:?}"), &mut counts);
+        }
+        for a in &asl {
+            evals += 1;
+            nontrivial += 1;
+            let au = to_assertion_uri(m, a);
+            if manifest_label_from_uri(&au).as_deref() != Some(m.as_str()) || assertion_label_from_uri(&au).as_deref() != Some(a.as_str()) || box_name_from_uri(&au).as_deref() != Some(a.as_str()) {
+                bad("labels.assertion_uri_round_trip", format!("manifest={m:?} assertion={a:?}"), &mut counts);
+            }
+            let du = to_databox_uri(m, a);
+            if manifest_label_from_uri(&du).as_deref() != Some(m.as_str()) || assertion_label_from_uri(&du).as_deref() != Some(a.as_str()) {
+                bad("labels.databox_uri_round_trip", format!("manifest={m:?} databox={a:?}"), &mut counts);
+            }
+            let vu = to_verifiable_credential_uri(m, a);
+            if manifest_label_from_uri(&vu).as_deref() != Some(m.as_str()) || box_name_from_uri(&vu).as_deref() != Some(a.as_str()) {
+                bad("labels.credential_uri_round_trip", format!("manifest={m:?} vc={a:?}"), &mut counts);
+            }
+            // relative <-> absolute
+            let rel = to_relative_uri(&au);
+            if to_absolute_uri(m, &rel) != au {
+                bad("labels.relative_absolute_round_trip", format!("manifest={m:?} assertion={a:?} rel={rel:?}"), &mut counts);
+            }
+            if assertion_label_from_uri(&rel).as_deref() != Some(a.as_str()) {
+                bad("labels.relative_assertion_label", format!("manifest={m:?} assertion={a:?} rel={rel:?}"), &mut counts);
+            }
+        }
+    }
+    println!("VERIF-B-SAMPLE to_assertion_uri(\"urn:c2pa:x\", \"c2pa.actions\") = {:?}", to_assertion_uri("urn:c2pa:x", "c2pa.actions"));
+    println!("VERIF-B-SAMPLE violation classes this run: {:?}", counts);
+    println!("VERIF-B unit=labels test=c34_uri_round_trips evaluations={evals} nontrivial={nontrivial} exhaustive=true domain=manifest labels: every non-empty string of length <= {} over {{a : . _ 1 space -}} + 4 generated shapes; assertion labels: 5 typical + {} enumerated", if thorough { 4 } else { 3 }, asl.len() - 5);
+}
+
+#[test]
+fn c34_manifest_parts_round_trip() {
+    let thorough = std::env::var("VERIF_B_TIER").map(|t| t == "thorough").unwrap_or(false);
+    let guids = ["6f1b7a2e-0c1d-4b7e-9a3f-5d2c8e4b1a90", "a", "0"];
+    let mut vendors: Vec<Option<String>> = vec![None];
+    for v in strings_over(&['u', 'r', 'n', '_', '1', '-', '.'], if thorough { 3 } else { 2 }) {
+        if !v.is_empty() {
+            vendors.push(Some(v));
+        }
+    }
+    vendors.push(Some("urn".to_string()));
+    vendors.push(Some("c2pa".to_string()));
+    vendors.push(Some("uuid".to_string()));
+    vendors.push(Some("x".repeat(32)));
+    let nums: Vec<Option<usize>> = std::iter::once(None).chain((0..=20usize).map(Some)).chain([Some(usize::MAX)]).collect();
+    let mut evals = 0usize;
+    let mut nontrivial = 0usize;
+    let mut counts: std::collections::BTreeMap<String, usize> = std::collections::BTreeMap::new();
+    for g in guids {
+        for vendor in &vendors {
+            for is_v1 in [false, true] {
+                for version in &nums {
+                    for reason in &nums {
+                        // shapes the Display impl can express: v1 has no version/reason; a reason needs a version
+                        if is_v1 && (version.is_some() || reason.is_some()) {
+                            continue;
+                        }
+                        if version.is_none() && reason.is_some() {
+                            continue;
+                        }
+                        evals += 1;
+                        if vendor.is_some() || version.is_some() {
+                            nontrivial += 1;
+                        }
+                        let mp = ManifestParts { guid: g.to_string(), is_v1, cgi: vendor.clone(), version: *version, reason: *reason };
+                        let label = mp.to_string();
+                        let key = match manifest_label_to_parts(&label) {
+                            None => Some("labels.manifest_parts.unparsable"),
+                            Some(p) => {
+                                if p.guid == mp.guid && p.is_v1 == mp.is_v1 && p.cgi == mp.cgi && p.version == mp.version && p.reason == mp.reason {
+                                    None
+                                } else {
+                                    Some("labels.manifest_parts.different_parts")
+                                }
+                            }
+                        };
+                        let key = match key {
+                            Some(k) if vendor.as_deref() == Some("urn") || vendor.as_deref() == Some("uuid") && is_v1 => Some(format!("{k}.vendor_is_urn_keyword")),
+                            Some(k) => Some(k.to_string()),
+                            None => None,
+                        };
+                        if let Some(k) = key {
+                            let c = counts.entry(k.clone()).or_insert(0);
+                            *c += 1;
+                            if *c <= 3 {
+                                println!("VERIF-B-VIOLATION key={k} input=parts={mp:?} label={label:?} parsed={:?}", manifest_label_to_parts(&label));
+                            }
+                        }
+                        // through a URI as well
+                        let u = to_manifest_uri(&label);
+                        if manifest_label_from_uri(&u).as_deref() != Some(label.as_str()) {
+                            let c = counts.entry("labels.manifest_uri_round_trip".to_string()).or_insert(0);
+                            *c += 1;
+                            if *c <= 3 {
+                                println!("VERIF-B-VIOLATION key=labels.manifest_uri_round_trip input={label:?}");
+                            }
+                        }
+                    }
+                }
+            }
+        }
+    }
+    println!("VERIF-B-SAMPLE {:?} -> {:?}", ManifestParts { guid: "g".into(), is_v1: false, cgi: Some("acme".into()), version: Some(2), reason: Some(1) }.to_string(), manifest_label_to_parts("urn:c2pa:g:acme:2_1"));
+    println!("VERIF-B-SAMPLE violation classes this run: {:?}", counts);
+    println!("VERIF-B unit=labels test=c34_manifest_parts_round_trip evaluations={evals} nontrivial={nontrivial} exhaustive=true domain=3 guids x {} vendors (all strings <= {} over {{u r n _ 1 - .}}, keywords, 32 chars) x v1/v2 x version,reason in {{None,0..=20,usize::MAX}}", vendors.len(), if thorough { 3 } else { 2 });
+}
